@@ -393,11 +393,11 @@ def run(prop: str, tier: str) -> int:
     if tier == "thorough":
         spaces = e1.THOROUGH_SPACES
         if prop == "C11":
-            spaces = e1.QUICK_SPACES + [(4, e1.A6, None)]
+            spaces = e1.QUICK_SPACES + [(4, e1.A7, None)]
     else:
         spaces = e1.QUICK_SPACES
         if prop == "C11":
-            spaces = [(1, e1.A6, None), (2, e1.A6, None), (3, e1.A6, None), (4, e1.A4, None),
+            spaces = [(1, e1.A7, None), (2, e1.A7, None), (3, e1.A7, None), (4, e1.A5, None),
                       (5, e1.alphabet(G.C, G.CRAD), None), (5, e1.A2, None), (6, e1.A1, None)]
     shards = e1.space_shards(spaces)
     for shard, res in pmap(run_roots_shard, [(prop, sh, tier) for sh in shards]):
